@@ -898,14 +898,43 @@ def junk_one(how, d, v, strict, observable=False):
     return line
 
 
+def deep_registry_snapshot():
+    """the registries and what every registered class says about itself (its property tables by name and identity)"""
+    import stix2.registry
+    snap = {}
+    for v, cats in stix2.registry.STIX2_OBJ_MAPS.items():
+        for c, m in cats.items():
+            for k, cls in m.items():
+                tables = []
+                for attr in ("_properties", "_toplevel_properties", "_id_contributing_properties"):
+                    t = getattr(cls, attr, None)
+                    if isinstance(t, dict):
+                        tables.append((attr, [(n, id(p)) for n, p in t.items()]))
+                    elif isinstance(t, (list, tuple)):
+                        tables.append((attr, list(t)))
+                snap["%s/%s/%s" % (v, c, k)] = (id(cls), tables, getattr(cls, "_type", None), getattr(cls, "extension_type", None))
+    return snap
+
+
+def refused_extension_objects():
+    A, B, C = ("extension-definition--%s-1111-4111-8111-111111111111" % (x * 8) for x in "abc")
+    tl = {"extension_type": "toplevel-property-extension"}
+    ident = {"type": "identity", "spec_version": "2.1", "id": "identity--11111111-1111-4111-8111-111111111111", "created": "2020-01-01T00:00:00.000Z", "modified": "2020-01-01T00:00:00.000Z", "name": "n"}
+    return [("two_toplevel_extensions_required_member_missing", dict(ident, extensions={A: dict(tl), B: dict(tl)}, rank=1)),
+            ("two_toplevel_extensions_reversed_wrong_kind", dict(ident, extensions={B: dict(tl), A: dict(tl)}, rank="x", weight=[])),
+            ("two_toplevel_extensions_bad_host", dict(ident, extensions={A: dict(tl), B: dict(tl)}, rank=1, weight=2, name=5)),
+            ("toplevel_and_property_extension_bad_member", dict(ident, extensions={A: dict(tl), C: {"extension_type": "property-extension", "depth": "deep"}}, rank=1)),
+            ("three_extensions_bad_claim", dict(ident, extensions={C: dict(tl), A: dict(tl), B: {"extension_type": "property-extension"}}, rank=1, weight=1))]
+
+
 def state_lines(chk):
     """C17: a failed construction / parse / add leaves registries and stores as they were"""
     import stix2
     import stix2.registry
     lines = []
 
-    def reg_snapshot():
-        return {v: {c: sorted((k, id(x)) for k, x in m.items()) for c, m in cats.items()} for v, cats in stix2.registry.STIX2_OBJ_MAPS.items()}
+    reg_snapshot = deep_registry_snapshot
+    custom_types()
     store = stix2.MemoryStore()
     store.add(stix2.v21.Identity(name="kept"))
     for how, data in (("bad_object", {"type": "identity", "id": "identity--bad", "name": 5}), ("bad_member_in_list", [stix2.v21.Identity(name="ok"), {"type": "identity", "name": []}]),
@@ -923,7 +952,10 @@ def state_lines(chk):
             lines.append({"kind": "state", "how": "MemoryStore.add:" + how, "unchanged": set(before_s) <= set(after_s) and before_r == reg_snapshot()})
     for how, fn in (("CustomObject_bad_name", lambda: stix2.v21.CustomObject("x_bad", [("p", stix2.properties.StringProperty())])(type("C", (), {}))),
                     ("CustomObject_duplicate", lambda: stix2.v21.CustomObject("identity", [("p", stix2.properties.StringProperty())])(type("C", (), {}))),
-                    ("parse_failure", lambda: stix2.parse({"type": "indicator", "pattern": 5}))):
+                    ("parse_failure", lambda: stix2.parse({"type": "indicator", "pattern": 5}))) + tuple(
+                        # objects that claim several registered extensions at once and are refused: what the registered classes say afterwards is what they said before
+                        ("refused_object_with_extensions:%s:%s" % (nm, "strict" if strict else "permissive"),
+                         (lambda d=d, strict=strict: stix2.parse(copy.deepcopy(d), allow_custom=not strict))) for strict in (True, False) for nm, d in refused_extension_objects()):
         before = reg_snapshot()
         try:
             fn()
